@@ -13,13 +13,13 @@ import (
 )
 
 type Clause struct {
-	Label string
-	Text  string
-	Expr  *Expr
-	Props []string // restricts the clause to these properties (from label prefix "C08.x")
-	Internal bool  // checked in the function itself, not exported to callers (may mention ghosts)
-	File  string
-	Line  int
+	Label    string
+	Text     string
+	Expr     *Expr
+	Props    []string // restricts the clause to these properties (from label prefix "C08.x")
+	Internal bool     // checked in the function itself, not exported to callers (may mention ghosts)
+	File     string
+	Line     int
 }
 
 type LoopSpec struct {
@@ -38,36 +38,36 @@ type Param struct {
 }
 
 type FuncContract struct {
-	Kind     string // func, extern, lemma
-	Name     string // "ReadVarint", "(*Reader).read", extern: "io.Reader.Read"
-	Pkg      string
-	Mode     Mode
-	ModeSet  bool
-	Props    []string
-	Requires []*Clause
-	Ensures  []*Clause
-	Modifies []*Expr
-	ModAll   bool
-	Loops    map[int]*LoopSpec
-	Inline   bool
+	Kind        string // func, extern, lemma
+	Name        string // "ReadVarint", "(*Reader).read", extern: "io.Reader.Read"
+	Pkg         string
+	Mode        Mode
+	ModeSet     bool
+	Props       []string
+	Requires    []*Clause
+	Ensures     []*Clause
+	Modifies    []*Expr
+	ModAll      bool
+	Loops       map[int]*LoopSpec
+	Inline      bool
 	Instantiate [][2]string // (param, function name): verify once per entry with the func-typed param bound
-	Lets     map[string]*Expr
-	LetOrder []string
-	Params   []Param // extern / spec
-	Results  []Param
-	Assumes  []string // free-text assumptions surfaced in evidence
-	Effects  []string
-	NoPanic  bool // sweep-only: no functional clauses expected
-	Lemma    *Clause
-	MayPanic []string
-	Pure     bool
-	Ghosts   []*GhostStmt
-	File     string
-	Line     int
-	Trusted  string
-	Reveal   []string
-	Uses     []*Expr // lemma applications: call expressions L(args)
-	Sites    map[string][]*Clause // call-site ghost clauses: key "assert:<callee>#k"
+	Lets        map[string]*Expr
+	LetOrder    []string
+	Params      []Param // extern / spec
+	Results     []Param
+	Assumes     []string // free-text assumptions surfaced in evidence
+	Effects     []string
+	NoPanic     bool // sweep-only: no functional clauses expected
+	Lemma       *Clause
+	MayPanic    []string
+	Pure        bool
+	Ghosts      []*GhostStmt
+	File        string
+	Line        int
+	Trusted     string
+	Reveal      []string
+	Uses        []*Expr              // lemma applications: call expressions L(args)
+	Sites       map[string][]*Clause // call-site ghost clauses: key "assert:<callee>#k"
 }
 
 type GhostStmt struct {
@@ -92,8 +92,8 @@ type MonitorSpec struct {
 	Type     string // "Writer"
 	Lock     string // "mu"
 	Protects []string
-	Atomic   []string // protected fields that are read with atomic loads outside the lock
-	Chans    []string // protected channel fields whose closed state belongs to the monitor
+	Atomic   []string  // protected fields that are read with atomic loads outside the lock
+	Chans    []string  // protected channel fields whose closed state belongs to the monitor
 	Invs     []*Clause // hold whenever the lock is free
 	Pubs     []*Clause // publication invariant: holds at every instant, also mid critical section
 	Guars    []*Clause // two-state guarantee of every atomic step: old(self.f) vs self.f
@@ -109,16 +109,16 @@ type ObjInv struct {
 }
 
 type ContractSet struct {
-	Funcs    map[string]*FuncContract // key pkgpath + "." + name
-	Externs  map[string]*FuncContract // key full name e.g. "io.Reader.Read", "(*strings.Builder).Grow"
-	Specs    map[string]*SpecFunc
-	Lemmas   []*FuncContract
-	Monitors []*MonitorSpec
-	ObjInvs  map[string]*ObjInv
-	Files    []string
-	RawScan  []string // assume/trusted/extern lines for the evidence
-	Axioms   []*Clause // assumed facts about package-level variables of dependencies
-	GhostMaps map[string]*SpecFunc // ghost maps: name -> (params, result type)
+	Funcs      map[string]*FuncContract // key pkgpath + "." + name
+	Externs    map[string]*FuncContract // key full name e.g. "io.Reader.Read", "(*strings.Builder).Grow"
+	Specs      map[string]*SpecFunc
+	Lemmas     []*FuncContract
+	Monitors   []*MonitorSpec
+	ObjInvs    map[string]*ObjInv
+	Files      []string
+	RawScan    []string             // assume/trusted/extern lines for the evidence
+	Axioms     []*Clause            // assumed facts about package-level variables of dependencies
+	GhostMaps  map[string]*SpecFunc // ghost maps: name -> (params, result type)
 	Immutables []*ImmutableDecl
 }
 
